@@ -171,6 +171,12 @@ def run(ctx):
                        f"kernel target self.{v[2]} bound to the parameter beta via {e.callee}",
                        f"kernel target self.{v[2]} is bound to {T.show(bound) if bound else 'nothing'} instead of mutate's beta parameter", disc=e.callee)
             n_bind += 1
+            if e.callee.endswith("partial"):
+                bound_term = e.result
+                reach = [k for k in ev.events if k.depth == 0 and k is not e and any(bound_term == a for a in list(k.args) + [x for _, x in k.kwargs])]
+                ctx.decide(bool(reach), "C05.bind", f"{c.ident}.mutate", loc_of(mu, e.node),
+                           f"the bound target is handed to the kernel ({reach[0].callee if reach else ''})",
+                           f"the target bound with {e.callee} is never handed to a kernel constructor: the kernel runs on a different (or no) density", disc=f"{e.callee}|reach")
     ctx.floor("SMC kernel targets", n_targets, 4)
     ctx.floor("kernel bindings in mutate", n_bind, 3)
 
@@ -220,9 +226,24 @@ MUTANTS = [
     M("blackjax binds constant", _BJ, "log_prob_fn = partial(self._jax_log_prob, beta=beta)", "log_prob_fn = partial(self._jax_log_prob, beta=1.0)", "C05.bind"),
     M("minipcn override drops beta", _MP, "return super().log_prob(x, beta)", "return super().log_prob(x)", "C05.id"),
 ]
+MUTANTS += [
+    M("minipcn kernel built without the target", _MP, "log_prob_fn=log_prob_fn,\n            step_fn", "log_prob_fn=self.log_prior,\n            step_fn", "C05.bind"),
+]
 NEUTRALS = [
     M("tempered density regrouped", _S, "return (1 - beta) * self.log_q + beta * log_p_T", "return self.log_q + beta * (log_p_T - self.log_q)"),
     M("SMC target via temporary", _B, "log_q = self.prior_flow.log_prob(samples.x)\n        samples.log_q = samples.array_to_namespace(log_q)", "samples.log_q = samples.array_to_namespace(self.prior_flow.log_prob(samples.x))", within="SMCSampler.log_prob"),
     M("MCMC target operand order", _M, "samples.log_likelihood\n            + samples.log_prior\n            + samples.array_to_namespace(log_abs_det_jacobian)", "samples.array_to_namespace(log_abs_det_jacobian)\n            + samples.log_prior\n            + samples.log_likelihood"),
     M("minipcn override passes keyword", _MP, "return super().log_prob(x, beta)", "return super().log_prob(x, beta=beta)"),
+]
+
+# functions the property is anchored in (auto-mutant sweep of the thorough tier)
+ANCHORS = [
+    'aspire.samples:SMCSamples.log_p_t',
+    'aspire.samplers.smc.base:SMCSampler.log_prob',
+    'aspire.samplers.smc.minipcn:MiniPCNSMC.log_prob',
+    'aspire.samplers.smc.minipcn:MiniPCNSMC.mutate',
+    'aspire.samplers.smc.blackjax:BlackJAXSMC.log_prob',
+    'aspire.samplers.smc.blackjax:BlackJAXSMC._jax_log_prob',
+    'aspire.samplers.mcmc:MCMCSampler.log_prob',
+    'aspire.samplers.smc.emcee:EmceeSMC.mutate',
 ]
